@@ -17,8 +17,94 @@ package twig
 //@   requires count >= 0 && count <= 4611686018427387904
 //@   ensures[C19] ret0 == twigLo(count, start) && ret1 == twigHi(count, start, hasLength, length)
 //@   ensures[C05] 0 <= ret0 && ret0 <= ret1 && ret1 <= count
+//@   flag replay_go ret0 == specTwigLo(count, start) && ret1 == specTwigHi(count, start, hasLength, length) && 0 <= ret0 && ret0 <= ret1 && ret1 <= count
 
 //@ func (*CoreExtension).filterSlice props: C05 C19
 //@   arith checked
 //@   ensures[C19] ret1 == nil && typeIs(value, "string") ==> typeIs(ret0, "string") && sliceStrSpec(unboxAs(value, "string"), fn_toInt_0(args[0]), len(args) > 1 && args[1] != nil, fn_toInt_0(args[1]), unboxAs(ret0, "string"))
 //@   ensures[C19] ret1 == nil && typeIs(value, "[]interface{}") ==> typeIs(ret0, "[]interface{}") && sliceListSpec(unboxAs(value, "[]interface{}"), fn_toInt_0(args[0]), len(args) > 1 && args[1] != nil, fn_toInt_0(args[1]), unboxAs(ret0, "[]interface{}"))
+
+// ---------------------------------------------------------------- node constructors (C05, C01)
+// Every node constructor hands out an object that nobody else can reach (new or taken from a
+// pool) and writes nothing else.
+
+//@ group allocnode props: C05
+//@   fresh
+//@   modifies nothing
+//@ apply allocnode Get*Node
+//@ apply allocnode New*Node
+
+// ---------------------------------------------------------------- parser (C05)
+// wfTokens: the token stream ends with an EOF token whose value is empty. Parse functions only move
+// tokenIndex forward; the token slice is never written. Expression parsers never consume the EOF
+// token (on success they stop at a token); block handlers and parseOuterTemplate may stop at len
+// (a tag cut off by the end of the input). Block handlers are entered just after "{% name".
+
+//@ define wfTokens(P) len(P.tokens) >= 1 && P.tokens[len(P.tokens)-1].Type == TOKEN_EOF && P.tokens[len(P.tokens)-1].Value == ""
+
+//@ func isBlockEndToken props: C05 C13
+//@   function
+//@   ensures ret == (tokenType == TOKEN_BLOCK_END || tokenType == TOKEN_BLOCK_END_TRIM)
+//@ func isVarEndToken props: C05 C13
+//@   function
+//@   ensures ret == (tokenType == TOKEN_VAR_END || tokenType == TOKEN_VAR_END_TRIM)
+
+//@ group parseexpr props: C05
+//@   requires 0 <= p.tokenIndex && p.tokenIndex <= len(p.tokens) && wfTokens(p)
+//@   ensures  old(p.tokenIndex) <= p.tokenIndex && (err == nil ==> p.tokenIndex < len(p.tokens))
+//@   modifies p.tokenIndex
+//@   loop * invariant old(p.tokenIndex) <= p.tokenIndex && p.tokenIndex < len(p.tokens)
+
+// these are entered on a token their caller has already inspected (an opening bracket, an
+// operator, "?" or "|"), so the current token is not EOF
+//@ group ontoken props: C05
+//@   requires p.tokenIndex < len(p.tokens) && p.tokens[p.tokenIndex].Type != TOKEN_EOF
+//@ apply ontoken (*Parser).parseArrayExpression
+//@ apply ontoken (*Parser).parseMapExpression
+//@ apply ontoken (*Parser).parseConditionalExpression
+//@ apply ontoken (*Parser).parseBinaryExpression
+//@ apply ontoken (*Parser).parseFilters
+//@ apply parseexpr (*Parser).parse*Expression
+//@ apply parseexpr (*Parser).parseFilters
+
+//@ func (*Parser).parseOuterTemplate props: C05
+//@   requires 0 <= p.tokenIndex && p.tokenIndex <= len(p.tokens) && wfTokens(p)
+//@   ensures  old(p.tokenIndex) <= p.tokenIndex && (err == nil ==> p.tokenIndex <= len(p.tokens))
+//@   modifies p.tokenIndex
+//@   loop * invariant old(p.tokenIndex) <= p.tokenIndex && p.tokenIndex <= len(p.tokens)
+
+// the contract of the handler type and of every handler is the same text (group handlerspec)
+//@ group handlerspec props: C05
+//@   requires 2 <= parser.tokenIndex && parser.tokenIndex <= len(parser.tokens) && wfTokens(parser)
+//@   ensures  old(parser.tokenIndex) <= parser.tokenIndex && (err == nil ==> parser.tokenIndex <= len(parser.tokens))
+//@   modifies parser.tokenIndex
+
+//@ functype blockHandlerFunc
+//@   params parser
+//@   use handlerspec
+
+// handlers are bound methods p.parseX called as handler(p): receiver and argument coincide
+//@ group handler props: C05
+//@   nonnil parser
+//@   requires p == parser
+//@   use handlerspec
+//@   loop * invariant old(parser.tokenIndex) <= parser.tokenIndex && parser.tokenIndex <= len(parser.tokens)
+//@ apply handler (*Parser).parseIf
+//@ apply handler (*Parser).parseFor
+//@ apply handler (*Parser).parseBlock
+//@ apply handler (*Parser).parseExtends
+//@ apply handler (*Parser).parseInclude
+//@ apply handler (*Parser).parseSet
+//@ apply handler (*Parser).parseDo
+//@ apply handler (*Parser).parseMacro
+//@ apply handler (*Parser).parseImport
+//@ apply handler (*Parser).parseFrom
+//@ apply handler (*Parser).parseSpaceless
+//@ apply handler (*Parser).parseVerbatim
+//@ apply handler (*Parser).parseApply
+//@ apply handler (*Parser).parseEndTag
+
+// parseInclude reads tokens[tokenIndex] in an error message after its option loops: they must not
+// consume the EOF token.
+//@ func (*Parser).parseInclude props: C05
+//@   loop * invariant parser.tokenIndex < len(parser.tokens)
